@@ -106,6 +106,26 @@ proof fn lemma_filter_all<T>(s: Seq<T>, p: spec_fn(T) -> bool)
         assert(s.drop_last().push(s.last()) =~= s);
     }
 }
+proof fn lemma_filter_subset<T>(s: Seq<T>, p: spec_fn(T) -> bool)
+    ensures forall|i: int| 0 <= i < s.filter(p).len() ==> s.contains(#[trigger] s.filter(p)[i]),
+    decreases s.len()
+{
+    reveal_with_fuel(Seq::filter, 2);
+    if s.len() > 0 {
+        let d = s.drop_last();
+        lemma_filter_subset(d, p);
+        assert forall|i: int| 0 <= i < s.filter(p).len() implies s.contains(#[trigger] s.filter(p)[i]) by {
+            if i < d.filter(p).len() {
+                assert(d.contains(d.filter(p)[i]));
+                let j = choose|j: int| 0 <= j < d.len() && d[j] == d.filter(p)[i];
+                assert(s[j] == d[j]);
+            } else {
+                assert(s.filter(p)[i] == s.last());
+                assert(s[s.len() - 1] == s.last());
+            }
+        }
+    }
+}
 /// effect of `get_mut(k)` + writes through the returned reference on the map view
 proof fn lemma_get_mut_effect<V>(old_m: Map<Term, V>, new_m: Map<Term, V>, k: Term)
     requires
@@ -131,7 +151,21 @@ proof fn lemma_bucket_update(old_idx: Map<Term, Vec<Arc<Triple>>>, new_idx: Map<
         forall|o: Term| #![trigger new_idx.contains_key(o)] #![trigger old_idx.contains_key(o)] #![trigger new_idx[o]] #![trigger old_idx[o]] o != comp(t, c) ==> (new_idx.contains_key(o) == old_idx.contains_key(o)) && (old_idx.contains_key(o) ==> new_idx[o] == old_idx[o]),
         bucket(new_idx, comp(t, c)) == bucket(old_idx, comp(t, c)).filter(differs(t)),
     ensures index_removed(old_idx, new_idx, t),
+            (bucket(new_idx, comp(t, c)).len() > 0 || !new_idx.contains_key(comp(t, c))) ==> index_wf(new_idx, c),
 {
+    assert forall|k2: Term| #[trigger] new_idx.contains_key(k2) && (bucket(new_idx, comp(t, c)).len() > 0 || !new_idx.contains_key(comp(t, c)))
+        implies new_idx[k2]@.len() > 0 && forall|i: int| 0 <= i < new_idx[k2]@.len() ==> comp(*#[trigger] new_idx[k2]@[i], c) == k2 by {
+        if k2 == comp(t, c) {
+            let f = bucket(old_idx, k2).filter(differs(t));
+            assert(new_idx[k2]@ == f);
+            assert forall|i: int| 0 <= i < f.len() implies comp(*#[trigger] f[i], c) == k2 by {
+                lemma_filter_subset(bucket(old_idx, k2), differs(t));
+                assert(bucket(old_idx, k2).contains(f[i]));
+                let j = choose|j: int| 0 <= j < bucket(old_idx, k2).len() && bucket(old_idx, k2)[j] == f[i];
+                assert(comp(*old_idx[k2]@[j], c) == k2);
+            }
+        }
+    }
     let k = comp(t, c);
     let pred = differs(t);
     assert forall|kk: Term| #[trigger] bucket(new_idx, kk) == bucket(old_idx, kk).filter(pred) by {
@@ -195,6 +229,8 @@ def build(repo):
     f.ensures('predicate_index', 'removed_r ==> index_removed(old(self).predicate_index@, final(self).predicate_index@, *triple)')
     f.ensures('object_index', 'removed_r && old(self).config.index_objects && old(self).object_index is Some ==> final(self).object_index is Some'
               ' && index_removed(old(self).object_index->0@, final(self).object_index->0@, *triple)')
+    f.ensures('invariant_preserved', 'removed_r ==> index_wf(final(self).subject_index@, Comp::S) && index_wf(final(self).predicate_index@, Comp::P)'
+              ' && (final(self).object_index is Some && old(self).config.index_objects ==> index_wf(final(self).object_index->0@, Comp::O))')
     f.ensures('absent_changes_nothing', '!removed_r ==> final(self).subject_index@ == old(self).subject_index@ && final(self).predicate_index@ == old(self).predicate_index@ && final(self).object_index == old(self).object_index')
     f.body_start('proof { axiom_term_keys(); }\nlet ghost S0 = old(self).subject_index@; let ghost P0 = old(self).predicate_index@;\nlet ghost O0 = if old(self).object_index is Some { old(self).object_index->0@ } else { Map::empty() };')
     comps = ['subject', 'predicate', 'object']
